@@ -265,6 +265,31 @@ fn probes(cx: &mut Ctx, s: &Schema) {
             }
         }
     }
+    // several full SIMD batches (1024 values each) + a remainder: the extremes sit in the FIRST
+    // batch, so a kernel that forgets earlier batches (or the remainder) is wrong; reduced shape
+    // list, the tables are large
+    for (name, n_rows) in [("big-2100", 2100i64), ("big-3300", 3300), ("big-2048", 2048)] {
+        let t = Table {
+            rows: (0..n_rows)
+                .map(|k| {
+                    let c0 = if k == 10 { i(-500) } else if k == 20 { i(9000) } else if k % 11 == 0 { n.clone() } else { i(k % 97) };
+                    vec![c0, i(k), if k % 3 == 0 { n.clone() } else { i(k % 5) }, st(STRS[(k % 7) as usize])]
+                })
+                .collect(),
+            fill: vec![],
+        };
+        let mut db = load_table(s, &t);
+        let rsx = rows_sx_of(&t);
+        for q in [
+            plain(all_items(0), vec![]),
+            plain(all_items(0), vec![cmp(Cmp::Ge, 1, i(5))]),
+            plain(all_items(1), vec![cmp(Cmp::Lt, 1, i(n_rows - 3))]),
+            plain(vec![item(Fn_::Min, Some(3)), item(Fn_::Max, Some(3)), item(Fn_::Count, Some(3))], vec![]),
+        ] {
+            run_stmt(cx, s, &t, &mut db, &rsx, &q, name);
+            cx.rep.count("probe_statements_large");
+        }
+    }
     // known finding: ill-typed predicate (column compared with a literal of another type class)
     {
         let mut db = load_table(s, &base);
@@ -281,13 +306,15 @@ fn probes(cx: &mut Ctx, s: &Schema) {
 /// floats are not modelled: SUM/AVG/MIN/MAX over a DOUBLE column, gate on vs gate off only.
 /// Values are multiples of 1/4 so that every partial sum is exact in f64.
 fn float_stream(cx: &mut Ctx, rng: &mut Rng, tables: u64) {
-    for _ in 0..tables {
+    let forced: [usize; 4] = [1500, 2600, 1024, 2050];
+    for ti in 0..tables + forced.len() as u64 {
         let class = *rng.pick(&[0u32, 1, 2, 2, 3, 4]);
-        let n = gen_size(rng, class, 1100);
+        // the first tables have several full 1024-value batches plus a remainder
+        let n = if (ti as usize) < forced.len() { forced[ti as usize] } else { gen_size(rng, class, 1100) };
         let mut db = Db::new();
         db.keep_log = true;
         db.must("CREATE TABLE f (k INTEGER, d DOUBLE PRECISION)");
-        let null_pct = *rng.pick(&[0u64, 20, 100]);
+        let null_pct = if (ti as usize) < forced.len() { [10u64, 0, 0, 20][ti as usize] } else { *rng.pick(&[0u64, 20, 100]) };
         let mut batch = vec![];
         for k in 0..n {
             let d = if rng.below(100) < null_pct { "NULL".to_string() } else { format!("{}", rng.range(0, 400) as f64 / 4.0 + 0.25) };
